@@ -262,6 +262,12 @@ func famC15(rn *Runner) {
 				ax := pick(r, allAxes)
 				e = &EPath{Steps: []*Stp{{Axis: ax, Test: g.NodeTest(ax)}, g.Step(1, 3)}}
 			case 1:
+				if r.Chance(1, 3) {
+					// characters to REMOVE whose index lies between the character count and the byte count of the third argument
+					e = call("translate", lit(pick(r, []string{"a-b-c", "abcdef", "x\u00e9y-z", "\U0001F600abc"})), lit(pick(r, []string{"abc-", "abcdef", "-xyz\u00e9", "c\U0001F600ba"})),
+						lit(pick(r, []string{"\u00e9", "\u65e5\u672c", "\U0001F600", "\u00e9\u00e8", "x\u00e9"})))
+					break
+				}
 				e = call("substring", lit(pick(r, unicodePool)), bin("div", num(pick(r, []string{"1", "0", "-1"})), num("0")), num(pick(r, []string{"5", "0.5", "1e300"})))
 			case 2:
 				e = bin(pick(r, []string{"mod", "div", "+", "*"}), num(g.NumLiteralText()), pick(r, []Expr{num("0"), num("0.5"), bin("div", num("1"), num("0")), &EVar{RawQ{Local: "n"}}}))
